@@ -70,7 +70,8 @@ def run(drv, script_text, workdir, tmpdir_mode=False, inject=None, env=None, nth
     e.pop("OVNI_TMPDIR", None)
     tmpdir = None
     if tmpdir_mode:
-        tmpdir = os.path.join(workdir, "tmp")
+        # True: beside the trace directory; a path: there (e.g. on another file system)
+        tmpdir = tmpdir_mode if isinstance(tmpdir_mode, str) else os.path.join(workdir, "tmp")
         e["OVNI_TMPDIR"] = tmpdir
     if env:
         e.update(env)
@@ -169,3 +170,14 @@ def flushed_bytes(calls, primary_root):
             if ent and ent[0].endswith("stream.obs") and "O_WRONLY" in ent[2] and os.path.normpath(ent[0]).startswith(os.path.normpath(primary_root)):
                 out[os.path.normpath(ent[0])] = out.get(os.path.normpath(ent[0]), 0) + ret
     return out
+
+
+def select_k(n, limit=48):
+    """All of 1..n when n is small; otherwise the first and last dozen and an even spread in
+    between (a multi-MiB stream is copied in hundreds of identical 4 KiB read/write calls)."""
+    if n <= limit:
+        return list(range(1, n + 1))
+    keep = set(range(1, 13)) | set(range(n - 11, n + 1))
+    step = max(1, (n - 24) // (limit - 24))
+    keep |= set(range(13, n - 11, step))
+    return sorted(keep)
